@@ -354,3 +354,5 @@ def run(rep, repo, tier):
     rep.floor('R-ALPHABET', 6)
     rep.floor('R-PIECES:post', 4)
     rep.floor('R-PIECES:bounds', 2)
+    import c04_roundtrip
+    c04_roundtrip.run_ext(rep, repo, tier)
